@@ -313,6 +313,13 @@ func runCase(c *Case) (impl, model, spec string) {
 	r.Eval(family(c.Kind), dk)
 	r.Hit("impl:" + impl)
 	r.Hit("spec:" + spec)
+	if strings.HasPrefix(c.Kind, "gen-multicheck") {
+		v := "valid"
+		if spec != "OK" {
+			v = "invalid"
+		}
+		r.Hit(family(c.Kind) + ":" + v) // how many of the several-checks-per-script spends are valid by the reference
+	}
 	if !ok {
 		r.Hit("flags-not-FlagsOk")
 	}
